@@ -13,7 +13,7 @@ RULE = ("strings over a nasty alphabet (empty, ASCII, non-ASCII, quote, backslas
         "values, intern / make-symbol / gensym with successive gensym names compared for distinctness and the "
         "gensym-counter variable; compared with the model; non-trivial = distinct requests answered with a string")
 ASSUMPTIONS = ["prin1-to-string prints strings without quotes, princ style (known finding, pinned by test_strings)",
-               "float formatting of %f is Rust's shortest round-trip rendering: compared where the model can print it"]
+               "float formatting is Rust's: `{}` (shortest round-trip digits, ties up, positional) and `{:.1}` for integral values (all digits); the model computes both exactly"]
 
 STRS = ['""', '"a"', '"b"', '"ab"', '"abc"', '"A"', '"é"', '"éa"', '"z"', '"a b"', '"\\""', '"\\\\"', '"%"', '"%s"', '"a\\nb"', '"λx"', '"aé"', '"10"', '"9"']
 
@@ -39,7 +39,10 @@ def generate(tier, seed):
         for f in ["string<", "string=", "string>"]:
             reqs += ["(%s %s \"a\")" % (f, bad), "(%s \"a\" %s)" % (f, bad), "(%s \"a\")" % f, "(%s)" % f, "(%s \"a\" \"b\" \"c\")" % f]
     dirs = ["%s", "%S", "%d", "%f", "%%", "%x", "%", "a", " ", "é", "\\n", "%5d", "\\\""]
-    args = ["1", "-7", "2.5", "100.25", '"str"', '"q\\"t"', r'"a\\b"', r'"x\\"', r"""'("a\\b" "c")""", r"""'("q\"" . "\\")""", "'sym", "'(1 \"x\" b)", "nil", "t", ":k", "1.0", "3.75", "'(a . b)", "0.1"]
+    args = ["1", "-7", "2.5", "100.25", '"str"', '"q\\"t"', r'"a\\b"', r'"x\\"', r"""'("a\\b" "c")""", r"""'("q\"" . "\\")""", "'sym", "'(1 \"x\" b)", "nil", "t", ":k", "1.0", "3.75", "'(a . b)", "0.1",
+            # floats of every printing class: long shortest expansions, ties, integral ones beyond 2^53, tiny and huge
+            "3.14", "0.30000000000000004", "1803046310274419.75", "0.000000029802322387695312", "4611686018427387904.0", "-9007199254740993.0",
+            "123456789012345678901234567890.0", "0.000000000000000000001234", "-0.0", "100000000000000000000000.0", "'(1.1 (2.2 . 3.3))", "2.675"]
     for _ in range(8000 if tier == "quick" else 200000):
         fs = "".join(rng.choice(dirs) for _ in range(rng.randint(0, 5)))
         nd = sum(1 for d in ["%s", "%S", "%d", "%f"] for _ in range(fs.count(d)))
